@@ -188,6 +188,10 @@ func init() {
 
 func runC01(ctx *core.Ctx, out *core.Out) {
 	r := ctx.R
+	if ctx.Idx%10 == 7 {
+		c01Many(ctx, out)
+		return
+	}
 	cfg, prog := genRT(r, ctx.Thorough())
 	via := cfg.Server && ctx.Idx%5 == 4
 	if via {
@@ -581,4 +585,93 @@ func judgeWire(out *core.Out, id string, desc interface{}, cfg Cfg, prog []WStep
 		out.Sample(map[string]interface{}{"case": desc, "frames": framesDesc(frames, 10), "messages": len(msgs)})
 	}
 	return true
+}
+
+// c01Many: several connections run their write programs at the same time in one
+// process (they share the package-level compressor/decompressor pools and the
+// mask-key source), then several readers read the results back at the same
+// time. Every connection's messages must still arrive intact.
+func c01Many(ctx *core.Ctx, out *core.Out) {
+	r := ctx.R
+	n := r.Range(3, 8)
+	level := r.Range(-2, 9)
+	type one struct {
+		cfg  Cfg
+		prog []WStep
+		run  *rtRun
+		got  []Got
+		err  error
+	}
+	conns := make([]*one, n)
+	var descs []interface{}
+	for i := range conns {
+		rr := gen.For(ctx.Seed, fmt.Sprintf("c01many/%d", i), ctx.Idx)
+		cfg := Cfg{Server: rr.Bool(), RB: rr.BufSize(), WB: []int{64, 256, 1024, 4096}[rr.Intn(4)], Pool: false, Comp: rr.Chance(3, 4)}
+		prog := genProgram(rr, cfg, ProgOpts{MaxMsgs: 6, MaxSize: 20000, NoCtlViaMsg: true})
+		// all compressing connections use the same level so that they share one pool
+		prog = append([]WStep{{Kind: WSetLevel, Level: level}}, prog...)
+		conns[i] = &one{cfg: cfg, prog: prog}
+		descs = append(descs, map[string]interface{}{"cfg": cfg, "prog": progDesc(prog)})
+	}
+	var wg sync.WaitGroup
+	start := make(chan struct{})
+	for _, c := range conns {
+		wg.Add(1)
+		go func(c *one) {
+			defer wg.Done()
+			<-start
+			c.run = execWrite(c.cfg, c.prog)
+		}(c)
+	}
+	close(start)
+	wg.Wait()
+	// concurrent read-back
+	start2 := make(chan struct{})
+	for i, c := range conns {
+		wg.Add(1)
+		go func(i int, c *one) {
+			defer wg.Done()
+			<-start2
+			rr := gen.For(ctx.Seed, fmt.Sprintf("c01many/r%d", i), ctx.Idx)
+			rconn := xport.New(xport.Rechunk(c.run.written, xport.ChunkRandom, rr))
+			rc := newConn(rconn, Cfg{Server: !c.cfg.Server, RB: rr.BufSize(), WB: 256, Comp: c.cfg.Comp}, nil, 1)
+			rd := &Reader{C: rc}
+			rd.ReadAll(rr, -1)
+			c.got, c.err = rd.Got, rd.Err
+		}(i, c)
+	}
+	close(start2)
+	wg.Wait()
+	out.Count("concurrent_connection_groups", 1)
+	out.Eval(core.J(descs), true)
+	for i, c := range conns {
+		d := map[string]interface{}{"connections": n, "connection": i, "level": level, "case": descs[i]}
+		for _, res := range c.run.w.Results {
+			for _, e := range res.Errs {
+				if e != nil {
+					out.Violate("C01:valid-write-refused-with-concurrent-connections", fmt.Sprintf("connection %d of %d running concurrently: step %d returned %v", i, n, res.Step, e), d)
+					return
+				}
+			}
+		}
+		var exp []Sent
+		for _, s := range c.run.w.Sent {
+			if s.Type == 1 || s.Type == 2 {
+				exp = append(exp, s)
+			}
+		}
+		out.Count("messages_delivered", int64(len(c.got)))
+		frames, _, _ := wire.Decode(c.run.written)
+		out.Count("frames_on_wire", int64(len(frames)))
+		if len(c.got) != len(exp) {
+			out.Violate("C01:count-mismatch-with-concurrent-connections", fmt.Sprintf("connection %d of %d running concurrently: delivered %d messages, sent %d; reader ended with %v", i, n, len(c.got), len(exp), c.err), d)
+			return
+		}
+		for k, g := range c.got {
+			if g.ReadErr != nil || g.Type != exp[k].Type || !bytes.Equal(g.Data, exp[k].Data) {
+				out.Violate("C01:payload-mismatch-with-concurrent-connections", fmt.Sprintf("connection %d of %d running concurrently: message %d arrived altered (len %d vs %d, err %v)", i, n, k, len(g.Data), len(exp[k].Data), g.ReadErr), d)
+				return
+			}
+		}
+	}
 }
